@@ -50,6 +50,10 @@ func ValidateTransaction(ctx sdk.Ctx, k Keeper, stdTx StdTx, params Params, tmNo
 	// attempt to get the public key from the signature
 	if stdTx.Signature.PublicKey != nil && len(stdTx.Signature.PublicKey.RawBytes()) != 0 {
 		pk = stdTx.Signature.PublicKey
+		// the key supplied with the signature must be the key of the signer the message declares
+		if !stdTx.GetSigner().Equals(sdk.Address(pk.Address())) {
+			return sdk.ErrUnauthorized("the public key in the signature does not belong to the signer of the message")
+		}
 	} else {
 		// public key in the signature not found so check world state
 		acc := k.GetAccount(ctx, stdTx.GetSigner())
